@@ -597,6 +597,11 @@ func (g *graph) entry() {
 		if len(dir.Arguments) == 0 {
 			continue
 		}
+		if len(dir.Arguments) < 2 {
+			// A directive without a reason is malformed: lintcmd reports it
+			// as an error and it must not ignore anything.
+			continue
+		}
 		if slices.Contains(strings.Split(dir.Arguments[0], ","), "U1000") {
 			pos := g.fset.PositionFor(dir.Node.Pos(), false)
 			var key ignoredKey
